@@ -62,7 +62,7 @@ class Ctx:
         self.cuts = []
         self.nfresh = 0
         self.max_depth = 400
-        self.step_cap = 50_000_000
+        self.step_cap = 4_000_000_000      # cumulative MIR steps per worker; the lane time budget is the effective limit
         self.trace = None
         self.path_notes = []
         self.depth_probe = None
